@@ -77,6 +77,11 @@ func (e *Engine) VerifyFunc(fn *ssa.Function, spec *FuncSpec, prop string) (err 
 		args = append(args, v)
 		vars[p.Name()] = TV{V: v, T: p.Type()}
 	}
+	if recv := fn.Signature.Recv(); recv != nil && len(args) > 0 && !spec.NilRecv {
+		if r, ok := args[0].(VRef); ok {
+			st.assume(Not(Eq(r.T, e.ar.IConst(0))))
+		}
+	}
 	x.replayInfo = &ReplayInfo{Fn: fn, Spec: spec, Globals: map[string]Val{}, GlobalT: map[string]types.Type{}}
 	for i, p := range fn.Params {
 		x.replayInfo.Params = append(x.replayInfo.Params, replayParam{Name: p.Name(), T: p.Type(), V: args[i]})
@@ -456,8 +461,8 @@ func (x *Exec) checkAssign(st *State, in ssa.Instruction, kind string, elem type
 	switch kind {
 	case "range":
 		hi := e.ar.Bin(token.ADD, tInt, idx, e.ar.IConst(1))
-		g := Or(Not(st.isAllocIn(x.oldHeap, reg)), x.coveredRange(st, x.assignLocs, elem, reg, idx, hi))
-		x.safety(st, in, "assigns", g, "written element is in the assigns clause or freshly allocated")
+		g := Or(Not(st.isAllocIn(x.oldHeap, reg)), App("wr", BoolSort, reg), x.coveredRange(st, x.assignLocs, elem, reg, idx, hi))
+		x.safety(st, in, "assigns", g, "written element is in the assigns clause, freshly allocated or handed out as writable")
 	case "field":
 		g := Or(Not(st.isAllocIn(x.oldHeap, x.rootRef(ref))), x.coveredField(st, x.assignLocs, sty, field, ref))
 		name := sty.Underlying().(*types.Struct).Field(field).Name()
@@ -477,8 +482,8 @@ func (x *Exec) checkAssignRange(st *State, in ssa.Instruction, elem types.Type, 
 	if x.pure > 0 || x.lemma {
 		return
 	}
-	g := Or(Not(st.isAllocIn(x.oldHeap, reg)), x.coveredRange(st, x.assignLocs, elem, reg, lo, hi))
-	x.safety(st, in, "assigns", g, "written range is in the assigns clause or freshly allocated")
+	g := Or(Not(st.isAllocIn(x.oldHeap, reg)), App("wr", BoolSort, reg), x.coveredRange(st, x.assignLocs, elem, reg, lo, hi))
+	x.safety(st, in, "assigns", g, "written range is in the assigns clause, freshly allocated or handed out as writable")
 }
 
 // checkLocAssignable: a callee's assigns target must be assignable by the caller too
@@ -489,7 +494,7 @@ func (x *Exec) checkLocAssignable(st *State, in ssa.Instruction, loc assignLoc, 
 	var g *Term
 	switch loc.kind {
 	case "range":
-		g = Or(Not(st.isAllocIn(x.oldHeap, loc.reg)), x.coveredRange(st, x.assignLocs, loc.elemT, loc.reg, loc.lo, loc.hi))
+		g = Or(Not(st.isAllocIn(x.oldHeap, loc.reg)), App("wr", BoolSort, loc.reg), x.coveredRange(st, x.assignLocs, loc.elemT, loc.reg, loc.lo, loc.hi))
 	case "field":
 		g = Or(Not(st.isAllocIn(x.oldHeap, x.rootRef(loc.ref))), x.coveredField(st, x.assignLocs, loc.sty, loc.field, loc.ref))
 	case "object":
